@@ -88,6 +88,13 @@ type c15Asym struct {
 	B *string `cbor:"2,keyasint" json:"b,omitempty"`
 }
 
+// tag options in another order: omitempty before keyasint
+type c15OptOrder struct {
+	A *int64  `cbor:"1,keyasint" json:"a"`
+	B *string `cbor:"2,omitempty,keyasint" json:"b,omitempty"`
+	C *[]byte `cbor:"-3,omitempty,keyasint" json:"c,omitempty"`
+}
+
 // an embedded interface holding a struct BY VALUE (serialise only: it cannot be populated in place)
 type c15ValImpl struct {
 	B *string `cbor:"2,keyasint,omitempty" json:"b,omitempty"`
@@ -190,6 +197,11 @@ var asymFields = []c15Field{
 	{"A", 1, "a", false, func(r any, v int) { x := i64v(v); r.(*c15Asym).A = &x }, func(v int) *mcbor.Node { return mcbor.I(i64v(v)) }, func(v int) any { return i64v(v) }, &tr},
 	{"B", 2, "b", true, func(r any, v int) { x := strv(v); r.(*c15Asym).B = &x }, func(v int) *mcbor.Node { return mcbor.T(strv(v)) }, func(v int) any { return strv(v) }, &fa},
 }
+var optOrderFields = []c15Field{
+	{"A", 1, "a", true, func(r any, v int) { x := i64v(v); r.(*c15OptOrder).A = &x }, func(v int) *mcbor.Node { return mcbor.I(i64v(v)) }, func(v int) any { return i64v(v) }, nil},
+	{"B", 2, "b", false, func(r any, v int) { x := strv(v); r.(*c15OptOrder).B = &x }, func(v int) *mcbor.Node { return mcbor.T(strv(v)) }, func(v int) any { return strv(v) }, nil},
+	{"C", -3, "c", false, func(r any, v int) { x := bytv(v); r.(*c15OptOrder).C = &x }, func(v int) *mcbor.Node { return mcbor.B(bytv(v)) }, func(v int) any { return b64(bytv(v)) }, nil},
+}
 var valImplFields = []c15Field{
 	{"B", 2, "b", false, func(r any, v int) {
 		x := strv(v)
@@ -227,6 +239,7 @@ var c15Shapes = []c15Shape{
 	{"iface-nil", func() any { return &c15IfaceEmb{} }, ifaceOwnFields, true, false},
 	{"anonymous-non-struct", func() any { return &c15AnonNonStruct{} }, anonFields, false, false},
 	{"omitempty-in-one-tag-only", func() any { return &c15Asym{} }, asymFields, false, false},
+	{"omitempty-before-keyasint", func() any { return &c15OptOrder{} }, optOrderFields, false, false},
 	{"iface-holding-struct-by-value", func() any { return &c15IfaceEmb{C15Iface: c15ValImpl{}} }, append(append([]c15Field{}, ifaceOwnFields...), valImplFields...), true, true},
 }
 
@@ -331,6 +344,17 @@ func c15Eval(c *choice.Ctx, st *Stats, sh c15Shape, mask int, variant int, perm 
 				if err := encoding.PopulateStructFromCBOR(extDM, mcbor.Encode(m), sh.fresh()); err == nil {
 					c.Failf("C15:missing-mandatory-accepted:cbor:"+tag, "input without the non-optional key %d is accepted (%s)", k, desc)
 				}
+				// ... also when an unrelated key that is congruent to it modulo 2^64 (2^32) carries the value
+				for _, foreign := range []*mcbor.Node{mcbor.U(uint64(k)), mcbor.I(k + (1 << 32)), mcbor.I(k - (1 << 32))} {
+					if fk, ok := foreign.Int(); ok && fk == k {
+						continue
+					}
+					m2 := m.Clone()
+					m2.Pairs = append(m2.Pairs, [2]*mcbor.Node{foreign, p[1].Clone()})
+					if err := encoding.PopulateStructFromCBOR(extDM, mcbor.Encode(m2), sh.fresh()); err == nil {
+						c.Failf("C15:foreign-key-taken-for-mandatory:cbor:"+tag, "input without key %d but with key %s is accepted (%s)", k, foreign.Diag(), desc)
+					}
+				}
 			}
 		}
 		d := n.Clone()
@@ -404,6 +428,24 @@ func c15Eval(c *choice.Ctx, st *Stats, sh c15Shape, mask int, variant int, perm 
 		st.Outcome("map-ranged-in-codec")
 	}
 	st.Outcome("checked:" + tag)
+}
+
+func c15TwinA() (any, any, int) {
+	type Twin struct {
+		A *int64 `cbor:"1,keyasint" json:"a"`
+	}
+	one := int64(1)
+	return &Twin{A: &one}, &Twin{}, 1
+}
+
+func c15TwinB() (any, any, int) {
+	type Twin struct {
+		X *string `cbor:"5,keyasint,omitempty" json:"x,omitempty"`
+		A *int64  `cbor:"1,keyasint" json:"a"`
+		Y *[]byte `cbor:"-6,keyasint" json:"y"`
+	}
+	two, s, b := int64(2), "x", []byte{1}
+	return &Twin{X: &s, A: &two, Y: &b}, &Twin{}, 3
 }
 
 func jsonKeyOrder(b []byte) []string {
@@ -648,6 +690,51 @@ func init() {
 			c15Eval(c, c15stats, sh, mask, c.Choose("values", 3), 0)
 		}, nil
 	}
+	// two distinct struct types whose reflect.Type.String() is the same (function-local types of the same name)
+	Scenarios["c15.same-name-types"] = func() (choice.Scenario, func() any) {
+		return func(c *choice.Ctx) {
+			order := c.Choose("first", 2)
+			js := c.Choose("format", 2) == 1
+			mk := []func() (any, any, int){c15TwinA, c15TwinB}
+			for _, i := range []int{order, 1 - order} {
+				x, fresh, n := mk[i]()
+				var out []byte
+				var err error
+				if js {
+					out, err = encoding.SerializeStructToJSON(x)
+				} else {
+					out, err = encoding.SerializeStructToCBOR(extEM, x)
+				}
+				c15stats.Trans.Add(2)
+				tag := fmt.Sprintf("twin%d:json=%v", i, js)
+				if err != nil {
+					c.Failf("C15:same-name-types:serialize-error:"+tag, "%v", err)
+					continue
+				}
+				got := -1
+				if js {
+					var m map[string]any
+					if json.Unmarshal(out, &m) == nil {
+						got = len(m)
+					}
+				} else if nd, e := mcbor.DecodeAll(out); e == nil && nd.K == mcbor.Map {
+					got = len(nd.Pairs)
+				}
+				if got != n {
+					c.Failf("C15:same-name-types:entries:"+tag, "%d entries emitted, the type has %d set fields: %x", got, n, out)
+				}
+				if js {
+					err = encoding.PopulateStructFromJSON(out, fresh)
+				} else {
+					err = encoding.PopulateStructFromCBOR(extDM, out, fresh)
+				}
+				if err != nil || !reflect.DeepEqual(x, fresh) {
+					c.Failf("C15:same-name-types:roundtrip:"+tag, "populate(serialize(x)) != x (err=%v)\n x %s\n y %s", err, dump(x), dump(fresh))
+				}
+			}
+			c15stats.StateStr(fmt.Sprint("twins", order, js))
+		}, nil
+	}
 	Scenarios["c15.synthetic.quick"] = mkSyn(sizesQuick)
 	Scenarios["c15.synthetic.thorough"] = mkSyn(sizesThorough)
 	// extension profiles built on each base profile: round trip through their codec methods
@@ -722,6 +809,7 @@ func init() {
 		dl := deadline(r, 55*time.Second, 20*time.Minute)
 		exploreChoiceOpts(r, "c15.returned-bytes", -1, dl, 1)
 		exploreChoiceOpts(r, "c15.after-failed-serialise", -1, dl, 1)
+		exploreChoiceOpts(r, "c15.same-name-types", -1, dl, 1)
 		exploreChoiceOpts(r, "c15.shapes", -1, dl, hookWorkers())
 		if thorough(r) {
 			exploreChoice(r, "c15.synthetic.thorough", -1, dl)
